@@ -163,17 +163,19 @@ CLAIMS["C08"] = dict(
    note="The reader side (regenerated parser reads the meta-grammar to the same grammar) is established by execution, not inside Coq.")
 CLAIMS["C01"] = dict(
    text="Reference semantics in Coq (Sem/Peg.v: sequence, ordered choice with commitment, optional, greedy */+, s.e+, &/!, "
-        "cut, forced, documented value rule) with theorems (Props/C01.v): the relation is FUNCTIONAL (one outcome per item and "
-        "position) and successful matches never end before they start -- for all grammars, inputs, action interpretations. "
-        "The executable evaluator Sem/PegEval.v is run INSIDE Coq on every explored case and must equal the real parser's "
-        "result (value, tokens consumed, failure, forced error); the generator and runtime models are tied to the code by "
-        "K-gen (text equality) and K-run (trace equality). Explored: hand-written shapes (actions in groups, outer actions, "
-        "&& on names, cuts with actions, look-alike groups) and random well-formed grammars x all token sequences up to "
-        "length 3-4.",
-   design="6/C01", technique="Coq reference semantics (determinism proved) + per-case evaluation of the reference inside Coq against the implementation + K-gen/K-run",
+        "cut, forced, documented value rule, raising actions) with theorems (Props/C01.v): the relation is FUNCTIONAL (one "
+        "outcome per item and position), successful matches never end before they start, and the executable evaluator "
+        "Sem/PegEval.v is SOUND for the relation (C01_evaluator_sound, induction on fuel: whatever it returns is derivable, "
+        "hence by determinism the only outcome) -- for all grammars, inputs and action interpretations. That evaluator is run "
+        "INSIDE Coq on every explored case and must equal the real parser's result (value, tokens consumed, failure, forced "
+        "error), so each explored case is a machine-checked instance of 'real parser = reference semantics'; the generator "
+        "and runtime models are tied to the code by K-gen (text equality) and K-run (trace equality). Explored: hand-written "
+        "shapes (actions in groups, outer actions, && on names, cuts with actions, look-alike groups) and random well-formed "
+        "grammars x all token sequences up to length 3-4.",
+   design="6/C01", technique="Coq reference semantics (determinism and evaluator soundness proved) + per-case evaluation of the reference inside Coq against the implementation + K-gen/K-run",
    note="Partial: the universal theorem run(gen g) = peg g (soundness/completeness through cache and helper rules) is not "
-        "proved; for the explored cases the equality is machine-checked case by case. The evaluator's agreement with the "
-        "relation is by construction, not yet a theorem. Known finding: lookahead over a forced item consumes.")
+        "proved; for the explored cases the equality is machine-checked case by case. Known finding: lookahead over a "
+        "forced item consumes.")
 CLAIMS["C19"] = dict(
    text="Coq theorems (Props/C19.v), both halves. Empty marker: for every grammar, token list, position and action "
         "interpretation, an item (rule) that the reference PEG semantics matches WITHOUT consuming is nullable under every "
